@@ -163,3 +163,90 @@ def ob_three_users(k1: bool, k2: bool, s0: int, s1: int, s2: int, h0: int, h1: i
     post: _
     """
     return _scenario([False, k1, k2], [s0, s1, s2], [h0, h1, h2], [False, c1, c2], [0, x1, x2])
+
+
+# ----------------------------------------------------------------------------------------------- a holder that starts a task
+def _scenario_spawn(h0, dsp, kc, sc, hc, s2, h2) -> bool:
+    """user 0 takes key a at instant 0 and holds it for h0; dsp instants into its critical section it STARTS a task (ensure_future: the
+    child inherits a copy of the holder's context) which sc instants later takes key a (or b when kc) for hc; an unrelated user 2 takes
+    key a at s2 for h2."""
+    loop = SymLoop()
+    ok = [True]
+    entered = {}
+    inside = {}
+    want = {}
+    children = []
+
+    async def main():
+        kl = KeyedLock()
+
+        async def section(name: str, key: str, h, inner=None):
+            free = want.get(key, 0) == 0
+            t_req = loop.time()
+            want[key] = want.get(key, 0) + 1
+            try:
+                async with kl(key):
+                    entered[name] = True
+                    inside[key] = inside.get(key, 0) + 1
+                    if inside[key] > 1:
+                        ok[0] = False  # two holders of one key
+                    if free and loop.time() != t_req:
+                        ok[0] = False  # had to wait for a free key
+                    try:
+                        if inner is not None:
+                            await inner()
+                        else:
+                            await asyncio.sleep(h)
+                    finally:
+                        inside[key] -= 1
+            finally:
+                want[key] -= 1
+
+        async def child():
+            await asyncio.sleep(sc)
+            await section("child", "b" if kc else "a", hc)
+
+        async def parent_body():
+            await asyncio.sleep(dsp)
+            children.append(asyncio.ensure_future(child()))
+            await asyncio.sleep(h0 - dsp)
+
+        async def other():
+            await asyncio.sleep(s2)
+            await section("other", "a", h2)
+
+        ts = [asyncio.ensure_future(section("parent", "a", h0, parent_body)), asyncio.ensure_future(other())]
+        res = await asyncio.gather(*ts, return_exceptions=True)
+        res += await asyncio.gather(*children, return_exceptions=True)
+        reraise_foreign(res)
+        for r in res:
+            if isinstance(r, BaseException):
+                raise r
+        if not (entered.get("parent") and entered.get("child") and entered.get("other")):
+            ok[0] = False
+        if len(kl._locks) != 0 or len(kl._refs) != 0:
+            ok[0] = False  # residue
+        ml = kl._main_lock
+        if ml is not None and ml.locked():
+            ok[0] = False
+
+    loop.run_until_complete(main())
+    return ok[0]
+
+
+@obligation(quick=120, thorough=400, partitions_quick=[f"kc == {k} and dsp == {d}" for k in (False, True) for d in (0, 1, 2)],
+            partitions_thorough=[f"kc == {k} and dsp == {d} and sc == {s}" for k in (False, True) for d in (0, 1, 2, 3) for s in (0, 1, 2, 3)],
+            what="a holder STARTS a task from inside its critical section (the reload path does: the control loop it starts later takes the same "
+                 "key) and that task takes the same key (or the other one) while the holder or an unrelated user holds it: exclusion per key "
+                 "holds for the child like for anybody else, a free key is entered at once, everybody enters, no residue",
+            bounds={"parent hold": "1..2 (thorough 3)", "spawn instant inside the section": "0..hold", "child": "start +0..3, hold 0..2, key a / b",
+                    "unrelated user of key a": "start 0..3, hold 0..2"})
+def ob_task_started_by_a_holder(h0: int, dsp: int, kc: bool, sc: int, hc: int, s2: int, h2: int) -> bool:
+    """
+    pre: 1 <= h0 <= HSP and 0 <= dsp <= h0 and 0 <= sc <= 3 and 0 <= hc <= 2 and 0 <= s2 <= 3 and 0 <= h2 <= 2
+    post: _
+    """
+    return _scenario_spawn(h0, dsp, kc, sc, hc, s2, h2)
+
+
+HSP = B(2, 3)
